@@ -395,7 +395,7 @@ ALLOWED = {
 class _S:
     """Per (endpoint, stream id) state as the endpoint itself has seen it."""
     __slots__ = ('kind', 'role', 'train', 'own_complete', 'own_error', 'own_cancel', 'peer_complete', 'peer_error',
-                 'peer_cancel', 'payload_trains', 'req_done', 'peer_train', 'peer_req_done', 'cancels')
+                 'peer_cancel', 'payload_trains', 'req_done', 'peer_train', 'peer_req_done', 'cancels', 'flagged_late')
 
     def __init__(self, kind, role):
         self.kind, self.role = kind, role
@@ -407,6 +407,7 @@ class _S:
         self.req_done = False
         self.peer_req_done = False
         self.cancels = 0
+        self.flagged_late = False
 
     def own_closed(self):
         """This endpoint will not legitimately send anything more on the stream."""
@@ -455,6 +456,16 @@ def mon_protocol(tr, pid='C08', decision=None):
             continue
         if e['ev'] == 'rr_cancelled':
             last_rr_cancelled[(side, e['uid'])] = e['seq']
+            continue
+        if e['ev'] == 'queued':
+            # the moment the endpoint decided to emit: after it has received the frame that ended a request-response or a
+            # stream it requested, it has nothing more to say on that stream
+            s_ = states[side].get(e.get('sid'))
+            if s_ is not None and s_.role == 'requester' and s_.kind in ('rr', 'st') and (s_.peer_complete or s_.peer_error) and \
+                    e.get('ftype') in ('RequestNFrame', 'CancelFrame', 'PayloadFrame', 'ErrorFrame') and not s_.flagged_late:
+                s_.flagged_late = True
+                out.append(viol('frame_queued_after_stream_ended', '%s:queued_after_end:%s:%s' % (pid, s_.kind, e.get('ftype')),
+                                side=side, sid=e.get('sid'), type=e.get('ftype'), seq=e['seq']))
             continue
         if e['ev'] not in ('send', 'recv'):
             continue
